@@ -322,7 +322,9 @@ func (s *session) SetID(newID string) {
 	s.socket.SetID(newID)
 	hub := s.peer.sessHub
 	hub.set(s)
-	hub.delete(oldID, s)
+	if s.ID() != oldID {
+		hub.delete(oldID, s)
+	}
 	Tracef("session changes id: %s -> %s", oldID, newID)
 }
 
